@@ -75,3 +75,53 @@ def colliding_inodes_check(ctx, n, completeness):
                 ctx.violation({"kind": "partition_wrong", "dimension": "colliding_inodes"},
                               "the reported groups are not the qualifying content classes (expected %d groups, got %d)" % (len(want), len(got)),
                               payload, found_input=True)
+
+
+def stale_member_colliding_inodes_check(ctx, n):
+    """C04 across file systems: a group whose members live on different fresh tmpfs instances and share an inode NUMBER; one
+    member is rewritten in place (same length, ordinary write => newer mtime) after `group`.  Every dedupe command must
+    skip the group: the rewritten file stays as it is and no content (the new one, the group's old one) is lost."""
+    if not available():
+        ctx.bump("stale_colliding_inodes", "skipped(no mount namespace)")
+        return
+    exe = os.path.join(core.BIN, "fclones")
+    scratch = os.path.join(ctx.scratch, "mnts_stale")
+    os.makedirs(scratch, exist_ok=True)
+    helper = os.path.join(core.VERIF, "vlib", "mounts_helper.py")
+    seed = ctx.rng.fork().next()
+    p = subprocess.run(["unshare", "-m", sys.executable, helper, scratch, exe, str(seed), str(n), "stale"],
+                       stdout=subprocess.PIPE, stderr=subprocess.PIPE, timeout=1800)
+    lines = [l for l in p.stdout.decode().split("\n") if l.strip()]
+    if p.returncode != 0 and not lines:
+        raise RuntimeError("mounts_helper failed: " + p.stderr.decode()[-500:])
+    for l in lines:
+        r = json.loads(l)
+        if "error" in r or "skipped" in r:
+            ctx.bump("stale_colliding_inodes", "skipped(%s)" % (r.get("error") or r.get("skipped")))
+            continue
+        ctx.count()
+        ctx.distinct(("mnt_stale", seed, r["scenario"]), True)
+        ctx.bump("stale_colliding_inodes", " ".join(["move DIR"] if r.get("op", [""])[0] == "move" else r.get("op", ["group failed"])[:3]) + " victim#%s" % r.get("victim_index"))
+        payload = {"scenario": "a member of a group spanning fresh tmpfs mounts (equal inode numbers) rewritten after `group`",
+                   "op": r.get("op"), "victim": r.get("victim"), "group": r.get("group"), "stderr": r.get("stderr"),
+                   "files": [[f["path"], f["dev"], f["ino"]] for f in r.get("files", [])],
+                   "replay": "unshare -m python3 %s <scratch> %s %d %d stale" % (helper, exe, seed, n)}
+        if r.get("stage") == "group":
+            ctx.violation({"kind": "run_failed", "dimension": "stale_colliding_inodes"}, "fclones group failed", payload, found_input=True)
+            continue
+        b, a = r["before"], r["after"]
+        v = r["victim"]
+        sha_b = {e[1] for e in b.values() if e[0] == "f"}
+        sha_a = {e[1] for e in a.values() if e[0] == "f"}
+        payload["changed"] = sorted(p_ for p_ in b if a.get(p_) != b[p_])[:10]
+        if a.get(v) != b[v]:
+            ctx.violation({"kind": "changed_data_lost", "dimension": "stale_colliding_inodes"},
+                          "the file rewritten after `group` was %s by `fclones %s` (its group must be skipped)" % (
+                              "removed" if v not in a else "replaced", " ".join(r["op"][:2])), payload, found_input=True)
+        elif sha_b - sha_a:
+            ctx.violation({"kind": "retained_content_lost", "dimension": "stale_colliding_inodes"},
+                          "a content that existed before `fclones %s` is stored in no regular file afterwards although a member of "
+                          "its group had changed" % " ".join(r["op"][:2]), payload, found_input=True)
+        elif any(a.get(p_) != b[p_] for p_ in r["group"]):
+            ctx.violation({"kind": "stale_group_processed", "dimension": "stale_colliding_inodes"},
+                          "a group with a member modified after the report was processed", payload, found_input=True)
